@@ -1001,6 +1001,18 @@ func corpus() []jcase {
 			{Op: "commit", V: 2}, {Op: "commit", V: 3}, {Op: "commit", V: 4},
 			{Op: "merge", Parents: []int{4, 2}}, {Op: "restart"}, {Op: "restart", Kill: true},
 			{Op: "commit", V: 5}, {Op: "merge", Parents: []int{5, 3, 1}}, {Op: "merge", Parents: []int{3, 4, 2}}, {Op: "restart"}, {Op: "restart"}}},
+		// round 4: REFUSED requests between the accepted ones (merge with an uncommitted parent, a parent
+		// listed twice, a single parent; newversion / branch on an open node; a branch name in use).
+		// The repaired code leaves no trace of them: the accepted merge gets version 4, the cache of
+		// branch heads is not refreshed by them, and the restarted server resolves every name alike.
+		{Kind: "history", Name: "refused-requests", Ops: []hop{
+			{Op: "commit", V: 1}, {Op: "newversion", V: 1}, {Op: "branch", V: 1, Branch: "b1"},
+			{Op: "merge", Parents: []int{2, 3}}, {Op: "newversion", V: 2}, {Op: "commit", V: 2},
+			{Op: "merge", Parents: []int{2, 2}}, {Op: "merge", Parents: []int{2, 3}}, {Op: "merge", Parents: []int{2}},
+			{Op: "branch", V: 2, Branch: "b1"}, {Op: "restart"},
+			{Op: "merge", Parents: []int{3, 2}}, {Op: "commit", V: 3}, {Op: "merge", Parents: []int{3, 2}},
+			{Op: "branch", V: 2, Branch: "b2"}, {Op: "merge", Parents: []int{4, 5}}, {Op: "restart", Kill: true},
+			{Op: "commit", V: 4}, {Op: "merge", Parents: []int{4, 4, 3}}, {Op: "newversion", V: 4}, {Op: "restart"}}},
 		{Kind: "history", Name: "merge-heads", Ops: []hop{
 			{Op: "commit", V: 1}, {Op: "newversion", V: 1}, {Op: "branch", V: 1, Branch: "b1"},
 			{Op: "commit", V: 2}, {Op: "commit", V: 3}, {Op: "merge", Parents: []int{2, 3}}, {Op: "restart"}}},
@@ -1119,7 +1131,14 @@ func randomHistory(rng *lib.Rand, i int) jcase {
 					cands = append(cands, m.VersionID)
 				}
 			}
-			if n.Locked && len(cands) > 0 {
+			if len(nodes) > 1 && rng.Chance(0.3) {
+				// any two or three nodes, open ones and repetitions included: mostly refused
+				ps := []int{n.VersionID, nodes[rng.Intn(len(nodes))].VersionID}
+				if rng.Chance(0.3) {
+					ps = append(ps, nodes[rng.Intn(len(nodes))].VersionID)
+				}
+				do(hop{Op: "merge", Parents: ps})
+			} else if n.Locked && len(cands) > 0 {
 				// parents in any order (the first one is the lineage), two or three of them
 				ps := []int{n.VersionID, cands[rng.Intn(len(cands))]}
 				if len(cands) > 1 && rng.Chance(0.4) {
@@ -1221,7 +1240,7 @@ func main() {
 	log.SetOutput(io.Discard)
 	rng := lib.NewRand(o.Seed)
 	run := lib.NewRun("C03", o)
-	run.Header("From DV Require Import Base.Prelude Model.Persist Model.MapLog Model.C04Run Model.C03Run.", "Local Open Scope N_scope.")
+	run.Header("From DV Require Import Base.Prelude Model.Persist Model.Heads Model.MapLog Model.C04Run Model.C03Run.", "Local Open Scope N_scope.")
 	if o.Replay != "" {
 		var c jcase
 		if err := lib.LoadReplay(o.Replay, &c); err != nil {
